@@ -1,7 +1,7 @@
 """C15 - uninitialised construction never destroys or exposes what was not written."""
-from .. import balance, cfg, core, ptrclass
+from .. import atomics, balance, cfg, core, ptrclass
 from ..effects import vget
-from ..facts import MAYBE_UNINIT
+from ..facts import MAYBE_UNINIT, operand_place
 from . import c04, c06
 
 PROP = "C15"
@@ -56,7 +56,81 @@ def payload_ty(F, i):
     return None
 
 
+
+def _pointee_is_uninit(F, ty_idx):
+    t = F.ty(ty_idx)
+    if t["k"] in ("ptr", "ref"):
+        tt = F.ty(t["t"])
+        return tt["k"] == "adt" and tt["path"] == "core::mem::maybe_uninit::MaybeUninit"
+    return False
+
+
+def _from_uninit(F, B, l, depth=0):
+    """Does pointer/reference local l come (through casts, reborrows, `.cast()`) from a pointer to `MaybeUninit<_>`?"""
+    from .. import symx
+
+    if depth > 12:
+        return False
+    if _pointee_is_uninit(F, B.b["locals"][l]["ty"]):
+        return True
+    for d in B.defs().get(l, []):
+        if d[0] == "call":
+            t = d[2]
+            c = atomics.callee_of(t)
+            if _pointee_is_uninit(F, B.b["locals"][t["dest"]["l"]]["ty"]):
+                return True
+            if c in symx.IDENTITY_CALLS and t["args"]:
+                pl = operand_place(t["args"][0])
+                if pl is not None and (("ty" in pl and _pointee_is_uninit(F, pl["ty"])) or _from_uninit(F, B, pl["l"], depth + 1)):
+                    return True
+        else:
+            rv = d[3]
+            if rv["k"] in ("use", "cast"):
+                pl = operand_place(rv["op"])
+                if pl is not None and (("ty" in pl and _pointee_is_uninit(F, pl["ty"])) or _from_uninit(F, B, pl["l"], depth + 1)):
+                    return True
+            elif rv["k"] in ("ref", "rawptr") and rv["place"]["p"] and rv["place"]["p"][0] == "deref":
+                if _from_uninit(F, B, rv["place"]["l"], depth + 1):
+                    return True
+    return False
+
+
+def rule_uninit_assign(ctx, rep):
+    """A slot that may still be uninitialised is filled by `ptr::write` / `MaybeUninit::write`, never by a plain assignment: `*slot = v`
+    first runs the destructor of whatever bytes are in the slot."""
+    for tag, F, E in ctx.each():
+        n = 0
+        bad = []
+        for b in F.body_list:
+            B = None
+            for bi, bl in enumerate(b["blocks"]):
+                t = bl["term"]
+                if t["k"] != "drop" or bl.get("cleanup"):
+                    continue
+                pl = t["place"]
+                if not pl["p"] or pl["p"][0] != "deref":
+                    continue
+                if B is None:
+                    B = cfg.Body(b)
+                if _from_uninit(F, B, pl["l"]):
+                    bad.append((b, t))
+        for b in F.body_list:
+            if any(F.handle_name(x) and _mentions_uninit(F, x) for x in b.get("inputs", [])):
+                n += 1
+        if bad:
+            for b, t in bad:
+                rep.bad("R-UNINIT-ASSIGN", "%s/assignment" % b["key"], "a slot reached through a pointer to `MaybeUninit<_>` is overwritten by a plain assignment (line %s): the old contents - possibly never initialised - are dropped first; writing must use `ptr::write`/`MaybeUninit::write`" % t["span"]["line"], F.loc(b, t["span"]), tag)
+        else:
+            rep.ok("R-UNINIT-ASSIGN", "no dropping assignment into a MaybeUninit slot", "%d functions take a handle with a MaybeUninit payload" % n, cfg=tag)
+    rep.floor("R-UNINIT-ASSIGN", 1, "one instance per run")
+
+
+def _mentions_uninit(F, i):
+    return any(F.ty(x)["k"] == "adt" and F.ty(x)["path"] == "core::mem::maybe_uninit::MaybeUninit" for x in F.walk(i))
+
+
 def run(ctx, rep):
+    rule_uninit_assign(ctx, rep)
     balance.rule_parked(ctx, rep)  # a parked caller-supplied value must be handed over before anything can unwind
     for tag, F, E in ctx.each():
         A = balance.analysis(tag, F, E)
